@@ -5,7 +5,8 @@ Scope: Python code nesting depth analysis using ast module
 
 Overview: Analyzes Python code to calculate maximum nesting depth using AST traversal. Implements
     visitor pattern to walk AST, tracking current depth and maximum depth found. Increments depth
-    for If, For, While, With, AsyncWith, Try, ExceptHandler, Match, and match_case nodes. Correctly
+    for If, For, While, With, AsyncWith, Try, ExceptHandler and Match nodes (a match statement and its
+    case arms count as one level). Correctly
     handles elif chains by detecting when an If node is in elif position (sole child in parent's
     orelse list) and not incrementing depth. Starts depth counting at 1 for function body, matching
     reference implementation behavior. Returns maximum depth found and location information for
@@ -30,8 +31,7 @@ _CONTROL_STRUCTURES = (
     ast.With,
     ast.AsyncWith,
     ast.Try,
-    ast.Match,
-    ast.match_case,
+    ast.Match,  # counted once together with its case arms, like TypeScript switch/case and Rust match
 )
 
 
